@@ -10,6 +10,10 @@ package main
 //	signTrimmedByte  the byte literals compared with / used in Sign ('}')
 //	reArmorStrings   every string literal of reArmor, in source order
 //	reArmorInts      every integer literal of reArmor, in source order
+//	verifySigErrGuards  every call of an error-returning OpenPGP function in VerifySignature
+//	                 (packet.Read, PublicKey.VerifySignature), in source order, with whether its error
+//	                 is assigned to err and the NEXT statement is `if err != nil { return vr.fail(…) }`,
+//	                 i.e. whether ANY non-nil error ends in rejection
 
 import (
 	"fmt"
@@ -27,6 +31,7 @@ func init() {
 		rawSpec{"signArmorMarks", "C16", c16SignArmorMarks},
 		rawSpec{"reArmorStrings", "C16", c16ReArmorStrings},
 		rawSpec{"reArmorInts", "C16", c16ReArmorInts},
+		rawSpec{"verifySigErrGuards", "C16", c16VerifySigErrGuards},
 	)
 	fingerprintSpecs = append(fingerprintSpecs,
 		fpSpec{"pkg/jsonsign", "SignRequest", "Sign"},
@@ -160,4 +165,77 @@ func c16ReArmorInts() (string, any) {
 		out = append(out, l)
 	}
 	return fmt.Sprintf("def reArmorInts : List Nat := [%s]\n", strings.Join(out, ", ")), out
+}
+
+// c16IsRejectOnAnyErr: `if err != nil { …; return vr.fail(…) }` without init and else.
+func c16IsRejectOnAnyErr(st ast.Stmt) bool {
+	is, ok := st.(*ast.IfStmt)
+	if !ok || is.Init != nil || is.Else != nil {
+		return false
+	}
+	be, ok := is.Cond.(*ast.BinaryExpr)
+	if !ok || be.Op != token.NEQ {
+		return false
+	}
+	x, ok1 := be.X.(*ast.Ident)
+	y, ok2 := be.Y.(*ast.Ident)
+	if !ok1 || !ok2 || x.Name != "err" || y.Name != "nil" || len(is.Body.List) == 0 {
+		return false
+	}
+	rs, ok := is.Body.List[len(is.Body.List)-1].(*ast.ReturnStmt)
+	if !ok || len(rs.Results) != 1 {
+		return false
+	}
+	_, ok = c16IsCall(rs.Results[0], "vr", "fail")
+	return ok
+}
+
+func c16VerifySigErrGuards() (string, any) {
+	fd := load("pkg/jsonsign").funcDecl("VerifyRequest", "VerifySignature")
+	type guard struct {
+		Call    string `json:"call"`
+		Guarded bool   `json:"guarded"`
+	}
+	var out []guard
+	if fd == nil || fd.Body == nil {
+		fail("pkg/jsonsign: VerifySignature not found")
+		return "def verifySigErrGuards : List (List Nat × Bool) := []\n", nil
+	}
+	watched := map[string]bool{"Read": true, "VerifySignature": true}
+	guarded := map[*ast.CallExpr]bool{}
+	for i, st := range fd.Body.List {
+		as, ok := st.(*ast.AssignStmt)
+		if !ok || len(as.Rhs) != 1 || len(as.Lhs) == 0 {
+			continue
+		}
+		ce, ok := as.Rhs[0].(*ast.CallExpr)
+		if !ok {
+			continue
+		}
+		last, ok := as.Lhs[len(as.Lhs)-1].(*ast.Ident)
+		if !ok || last.Name != "err" {
+			continue
+		}
+		if i+1 < len(fd.Body.List) && c16IsRejectOnAnyErr(fd.Body.List[i+1]) {
+			guarded[ce] = true
+		}
+	}
+	ast.Inspect(fd.Body, func(n ast.Node) bool {
+		ce, ok := n.(*ast.CallExpr)
+		if !ok {
+			return true
+		}
+		if se, ok := ce.Fun.(*ast.SelectorExpr); ok && watched[se.Sel.Name] {
+			out = append(out, guard{se.Sel.Name, guarded[ce]})
+		}
+		return true
+	})
+	if len(out) == 0 {
+		fail("pkg/jsonsign: VerifySignature calls no watched OpenPGP function")
+	}
+	parts := make([]string, len(out))
+	for i, g := range out {
+		parts[i] = fmt.Sprintf("(%s, %v)", leanBytes(g.Call), g.Guarded)
+	}
+	return fmt.Sprintf("def verifySigErrGuards : List (List Nat × Bool) := [%s]\n", strings.Join(parts, ", ")), out
 }
